@@ -171,6 +171,8 @@ def main(run):
                    "C18: %s — %s" % (LCODES[code], orig[cid]["text"].replace("\n", " | ")[:300]))
     if not ok and not run.violations:
         run.report({"kind": "proof", "theorem": PID}, {"theorem": "Props/C18.v", "log": log[-3000:]}, "C18: the Coq development no longer builds and no failing input was found", no_input=True)
+    if ok:
+        interp_facts_report(run, PID, bool(run.violations))
     cov = run.coverage
     if not problems and not mism:
         cov["discharged"] += 1
